@@ -19,10 +19,18 @@ Children follow a script ('exit' actions) and per-program behaviour: `lifetime` 
 by itself n passes after it was forked (a batch job kept in a loop by autorestart), with wait status `exit_status`.
 No kill/fork faults are injected in this population (a process in UNKNOWN may legitimately keep a child).
 
+Real files (input key `real`): every file version is rendered as a real ini file ([supervisord] directory= / childlogdir=,
+one [program:x] per program with command=/sim/x and the options of its description, [group:g] sections; a program's
+`ini` dict adds or overrides raw option text, e.g. a relative stdout_logfile or a malformed command) and
+options.process_config is the REAL ServerOptions.process_config reading that file: the first time in the directory
+supervisord was launched in, later -- Supervisor.run() has called options.daemonize(), represented here by its
+os.chdir(options.directory) -- in the directory the daemon changed to.  An unparsable version is a real file the real
+parser rejects; whatever it raises travels through the real reloadConfig.
+
 Monitors (observables only: the kernel's child table at every main-loop boundary, the reported states/pids, fork / kill /
 wait records in pass order, the RPC requests and answers, what supervisorctl printed / its exit status): see monitor().
 """
-import copy, signal, threading, traceback
+import copy, os, signal, threading, traceback
 
 from simkernel import SimKernel, StopSim
 import l2
@@ -195,9 +203,46 @@ def group_digest(group):
     return [group.config.priority, sorted(procs)]
 
 
+INI_KEYS = (('prio', 'priority'), ('autostart', 'autostart'), ('autorestart', 'autorestart'), ('startsecs', 'startsecs'), ('startretries', 'startretries'),
+            ('exitcodes', 'exitcodes'), ('stopsignal', 'stopsignal'), ('stopwaitsecs', 'stopwaitsecs'))
+
+
+def programs_of(version):
+    return version if isinstance(version, list) else version.get('programs', [])
+
+
+def render_version(version, rundir, childlogdir):
+    """a file version as ini text"""
+    if not isinstance(version, list) and 'raw' in version:
+        return version['raw']
+    progs = programs_of(version)
+    out = ['[supervisord]', 'directory=%s' % rundir, 'childlogdir=%s' % childlogdir, 'nodaemon=false']
+    out += ['%s=%s' % kv for kv in sorted((version.get('supervisord', {}) if not isinstance(version, list) else {}).items())]
+    out.append('')
+    groups = {}
+    for p in progs:
+        groups.setdefault(p.get('group', p['name']), []).append(p)
+        d = dict(CFG_DEFAULT); d.update({k: p[k] for k in CFG_KEYS if k in p})
+        opts = {'command': '/sim/' + p['name'], 'stdout_logfile': 'NONE', 'stderr_logfile': 'NONE'}
+        for k, ik in INI_KEYS:
+            v = d[k]
+            opts[ik] = ','.join(str(x) for x in v) if isinstance(v, list) else ({True: 'true', False: 'false'}[v] if isinstance(v, bool) else str(int(v) if k == 'stopsignal' else v))
+        opts.update(p.get('ini', {}))
+        out.append('[program:%s]' % p['name'])
+        out += ['%s=%s' % (k, v) for k, v in opts.items() if v is not None]
+        out.append('')
+    for g, members in groups.items():
+        gp = members[0].get('gprio', 999)
+        if len(members) == 1 and members[0]['name'] == g and members[0].get('prio', 999) == gp:
+            continue
+        out += ['[group:%s]' % g, 'programs=%s' % ','.join(m['name'] for m in members), 'priority=%d' % gp, '']
+    return '\n'.join(out) + '\n'
+
+
 class UpdKernel(SimKernel):
-    def __init__(self, files, script, steps, start=1, lat=None, fill_dt=1024, tail=6, scratch=None):
+    def __init__(self, files, script, steps, start=1, lat=None, fill_dt=1024, tail=6, scratch=None, real=None):
         self.files = files
+        self.real = real
         self.file_index = 0
         self.born = {}
         self.answers = {}
@@ -214,9 +259,44 @@ class UpdKernel(SimKernel):
         self.programs = allp
         self.options.process_config = self._process_config
         self.client = Client(self, steps, lat)
+        if real:
+            base = os.path.join(scratch or '/tmp', 'c15real')
+            self.launch = os.path.join(base, 'launch')
+            self.rundir = os.path.join(base, 'run') if real.get('chdir', True) else self.launch
+            for d in (self.launch, self.rundir):
+                for sub in ('logs', 'rel', 'childlogs'):
+                    os.makedirs(os.path.join(d, sub), exist_ok=True)
+            self.conf_path = os.path.join(base, 'supervisord.conf')
+            self.childlogdir = 'childlogs' if real.get('childlogdir') == 'relative' else os.path.join(base, 'launch', 'childlogs')
+            self.options.daemonize = self._daemonize
+            # system-call seam: the name an AUTO child log gets (mkstemp hands out a real descriptor, os.close here is the simulated one)
+            self.options.mktempfile = lambda suffix, prefix, dir: os.path.join(dir, prefix + 'VERIFAUTO' + suffix)
+            self.programs = {p['name']: p for f in files for p in programs_of(f)}
+            cwd0 = os.getcwd()
+            try:
+                os.chdir(self.launch)            # supervisord is launched here and reads its file for the first time
+                self._process_config(do_usage=False)
+            except Exception:
+                self.restore()
+                raise HarnessError('the first version of the file is rejected: ' + traceback.format_exc()[-400:])
+            finally:
+                os.chdir(cwd0)
+
+    def _daemonize(self):
+        """options.daemonize() as far as this population is concerned: the change of directory"""
+        d = self.options.directory
+        self.rec('daemonize', directory=d)
+        if d:
+            os.chdir(d)
 
     # ---- the file
     def _process_config(self, do_usage=True):
+        if self.real:
+            # the real thing: the file as it is now on disk, read by ServerOptions.process_config in the current directory
+            with open(self.conf_path, 'w', encoding='utf-8') as fh:
+                fh.write(render_version(self.files[self.file_index], self.rundir, self.childlogdir))
+            self.options.configfile = self.conf_path
+            return type(self.options).process_config(self.options, do_usage=do_usage)
         f = self.files[self.file_index]
         if not isinstance(f, list):
             raise ValueError('the file cannot be parsed (version %d)' % self.file_index)
@@ -310,24 +390,31 @@ class UpdKernel(SimKernel):
 
     def run(self):
         self.client.thread.start()
+        cwd0 = os.getcwd()
         try:
+            if self.real:
+                os.chdir(self.launch)
             return SimKernel.run(self)
         finally:
+            os.chdir(cwd0)
             self.client.abort()
 
 
 # ------------------------------------------------------------------------------------------------ input <-> run
 
-def make_input(files, script, steps, start, lat, fill_dt=1024, tail=6, label=''):
-    return {'daemon': True, 'label': label, 'files': files, 'script': [[dt, [list(a) for a in acts]] for dt, acts in script],
-            'steps': [list(s) for s in steps], 'start': start, 'lat': lat, 'fill_dt': fill_dt, 'tail': tail}
+def make_input(files, script, steps, start, lat, fill_dt=1024, tail=6, label='', real=None):
+    inp = {'daemon': True, 'label': label, 'files': files, 'script': [[dt, [list(a) for a in acts]] for dt, acts in script],
+           'steps': [list(s) for s in steps], 'start': start, 'lat': lat, 'fill_dt': fill_dt, 'tail': tail}
+    if real:
+        inp['real'] = real
+    return inp
 
 
 def run_input(inp, scratch=None):
     files = copy.deepcopy(inp['files'])
     script = [(dt, [tuple(a) for a in acts]) for dt, acts in inp['script']]
     k = UpdKernel(files, script, [list(s) for s in inp['steps']], start=inp.get('start', 1), lat=copy.deepcopy(inp.get('lat')),
-                  fill_dt=inp.get('fill_dt', 1024), tail=inp.get('tail', 6), scratch=scratch)
+                  fill_dt=inp.get('fill_dt', 1024), tail=inp.get('tail', 6), scratch=scratch, real=copy.deepcopy(inp.get('real')))
     outcome = k.run()
     return k, outcome
 
@@ -362,14 +449,21 @@ def monitor(ctx, k, inp, report=None):
     removal-accepted-although-running / removal-refused-although-stopped   removeProcessGroup's answer vs the members' states when it was dispatched
     client-step-aborted:daemon        a supervisorctl command ended with a fault other than STILL_RUNNING / CANT_REREAD or an exception
     update-never-answered             the client is still waiting after MAXPASS main-loop passes
+    unparsable-file-not-CANT_REREAD:daemon:<class>   reloadConfig let an exception of that class escape instead of answering
+                                      CANT_REREAD (real files only: whatever the real parser raises)
+    unparsable-file-not-CANT_REREAD:daemon:supervisorctl-reread   supervisorctl reread did not print ERROR: CANT_REREAD / exit status 0
+    unchanged-file-reported:daemon[:after-chdir]    the file is the version the active groups were started from (or the one the
+                                      last complete update converged to), yet reread lists a group ([:after-chdir]: real
+                                      files, the daemon has changed its directory since it read the file for the first time)
+    unchanged-file-update-touched-processes:daemon[:after-chdir]   ... and update signalled, removed or added something
     daemon-died-during-update / update-rpc-internal-error
     """
     V = report or Once(ctx)
     group_of = {}
     for f in inp['files']:
-        if isinstance(f, list):
-            for p in f:
-                group_of.setdefault(p['name'], p.get('group', p['name']))
+        for p in programs_of(f):
+            group_of.setdefault(p['name'], p.get('group', p['name']))
+    track = {'conv': 0}      # index of the file version the active groups correspond to (None: unknown)
     if k.outcome is None or k.outcome.startswith('exception') or k.outcome == 'blocked':
         V('daemon-died-during-update', 'the main loop ended with %s: %s' % (k.outcome, getattr(k, 'exc', '')[-300:]), inp)
         return
@@ -412,6 +506,14 @@ def monitor(ctx, k, inp, report=None):
                         k_pass(r, k), r['pid'], r['name'], g, g), inp)
         elif kind == 'wait' and r.get('pid'):
             waited.add(r['pid'])
+        elif kind == 'rpc-error':
+            c = calls.get(r.get('id'))
+            if c is not None and c['method'] == 'reloadConfig':
+                cls = str(r.get('exc', '')).split(':')[0].split('.')[-1] or 'Exception'
+                if not isinstance(inp['files'][k_file_index(k, r)], list):
+                    V('unparsable-file-not-CANT_REREAD:daemon:' + cls, 'reloadConfig let %s escape for a file that cannot be parsed' % (r.get('exc'),), inp)
+                else:
+                    V('update-rpc-internal-error', 'reloadConfig raised inside the daemon: %s' % (r.get('exc'),), inp)
         elif kind == 'rpc-answer':
             c = calls.get(r['id'])
             if c is None:
@@ -474,20 +576,34 @@ def monitor(ctx, k, inp, report=None):
                         V('child-outside-process-table', 'pass %d: child %d of %s is alive, but the active group %s reports %r for that process' % (
                             r['passno'], pid, name, g, tracked), inp)
             if pending_end is not None:
-                judge_step(ctx, V, k, inp, pending_end, r, group_of, killed, waited)
+                judge_step(ctx, V, k, inp, pending_end, r, group_of, killed, waited, track)
                 pending_end = None
     if pending_end is not None and last_b is not None:
-        judge_step(ctx, V, k, inp, pending_end, last_b, group_of, killed, waited)
+        judge_step(ctx, V, k, inp, pending_end, last_b, group_of, killed, waited, track)
 
 
 def k_pass(r, k):
     return next((q['passno'] for q in k.log[k.log.index(r):] if q['kind'] == 'boundary'), -1)
 
 
-def judge_step(ctx, V, k, inp, win, b, group_of, killed, waited):
+def k_file_index(k, r):
+    """the file version on disk when record r was made (the client's 'write' steps before it)"""
+    idx = 0
+    for q in k.log:
+        if q is r:
+            break
+        if q['kind'] == 'client-step-begin' and q['step'][0] == 'write':
+            idx = int(q['step'][1])
+    return idx
+
+
+def judge_step(ctx, V, k, inp, win, b, group_of, killed, waited, track=None):
     """a client step has returned; `b` is the first main-loop boundary after that"""
     step, end = win['step'], win['end']
     kind = step[0]
+    track = track if track is not None else {'conv': None}
+    if kind in ('remove', 'add', 'stop', 'start') and (win['removed_ok'] or win['added_ok']):
+        track['conv'] = None
     oc = end['outcome'].split(':')
     ctx.count('daemon:step:%s:%s' % (kind, FAULT_NAME.get(int(oc[1]), oc[1]) if oc[0] == 'fault' else (oc[0] if end['exitstatus'] == 0 else 'exitstatus-%s' % end['exitstatus'])))
     if oc[0] == 'exc' or (oc[0] == 'fault' and int(oc[1]) not in (l2.FAULT['STILL_RUNNING'], l2.FAULT['CANT_REREAD'])):
@@ -516,11 +632,28 @@ def judge_step(ctx, V, k, inp, win, b, group_of, killed, waited):
             bad.append('signals %r, added %r, removed %r' % ([(x['name'], x['sig']) for x in win['kills']], sorted(win['added_ok']), sorted(win['removed_ok'])))
         if bad:
             V('cant-reread-changed-something', '%s with an unparsable file: %s' % (kind, '; '.join(bad)), inp)
+        if kind == 'reread' and rr is not None and (not any('ERROR: CANT_REREAD' in l for l in end['output']) or end['exitstatus'] == 0):
+            V('unparsable-file-not-CANT_REREAD:daemon:supervisorctl-reread', 'supervisorctl reread with an unparsable file printed %r, exit status %s' % (end['output'], end['exitstatus']), inp)
         return
     if rr is None or 'fault' in rr or not isinstance(rr.get('value'), list):
+        if kind == 'update':
+            track['conv'] = None
         return
     added, changed, removed = rr['value'][0]
     reported = set(added) | set(changed) | set(removed)
+    # ---- an unchanged file reports nothing, and update then touches nothing
+    conv = track['conv']
+    if conv is not None and inp['files'][conv] == f:
+        sfx = ':after-chdir' if (inp.get('real') or {}).get('chdir', bool(inp.get('real'))) else ''
+        if reported:
+            V('unchanged-file-reported:daemon' + sfx, 'supervisorctl %s: the file is version %d, the one the active groups were made from, yet reread lists added=%r changed=%r removed=%r' % (
+                ' '.join(str(x) for x in step), end['file_index'], added, changed, removed), inp)
+        if kind == 'update' and (win['kills'] or win['added_ok'] or win['removed_ok']):
+            V('unchanged-file-update-touched-processes:daemon' + sfx, 'supervisorctl %s with an unchanged file: signals %r, added %r, removed %r; pids %r -> %r' % (
+                ' '.join(str(x) for x in step), [(x['name'], x['sig']) for x in win['kills']], sorted(win['added_ok']), sorted(win['removed_ok']),
+                {n: v[1] for n, v in win['procs0'].items()}, {n: v[1] for n, v in b['procs'].items()}), inp)
+    if kind == 'update':
+        track['conv'] = end['file_index'] if (end['outcome'] == 'ok' and end['exitstatus'] == 0 and not named_of(step)) else (conv if not (win['added_ok'] or win['removed_ok']) else None)
     want = file_digest(f)
     if kind == 'reread':
         handled = set()
@@ -752,6 +885,115 @@ def gen_random(rng):
     return make_input(files, script, steps, start, lat, fill_dt=rng.choice([512, 1024, 1024, 2048]), tail=rng.choice([3, 6, 10]), label='random/' + story)
 
 
+# ------------------------------------------------------------------------------------------------ real files
+
+REL_LOGS = {'stdout_logfile': ['web.log', 'logs/web.log', './out.log', 'logs/../o.log', 'rel/%(program_name)s.out'],
+            'stderr_logfile': ['web.err', 'logs/web.err', './logs/e.log'],
+            'directory': ['rel', '.', './logs']}
+# %-expressions `value % expansions` rejects: with a TypeError (the unescaped strftime percent, numeric conversions of
+# strings ...) and with a ValueError / KeyError
+BAD_FORMATS = ['/sim/%(program_name)s +%d', '/sim/x --stamp=%e', '/sim/x -t %c', '/sim/x +%x', '/sim/x %i', '/sim/x %f', '/sim/x %5d', '/sim/x %(program_name)d',
+               '/sim/x %(here)d', '/sim/x %(group_name)x', '/sim/x +%H:%M', '/sim/x +%Y', '/sim/x %(nosuch)s', '/sim/x %']
+BAD_OPTIONS = [('startsecs', 'soon'), ('autostart', 'maybe'), ('stopsignal', 'NOSUCH'), ('exitcodes', '0,x'), ('priority', 'high'), ('user', 'no-such-user-verif'),
+               ('stdout_logfile', '/nonexistent-verif/x.log'), ('environment', 'A'), ('numprocs', '2'), ('umask', '9')]
+BAD_RAW = ['command=/sim/stray\n[supervisord]\n', '[supervisord]\n[program:a\ncommand=/sim/a\n', '', '[program:a]\ncommand=/sim/a\n',
+           '[supervisord]\n\n[program:a]\ncommand=/sim/a\nthis is no option line\n', '[supervisord]\n[include]\n']
+
+
+def relativise(rng, progs, p=0.7):
+    out = []
+    for q in progs:
+        q = dict(q)
+        ini = dict(q.get('ini', {}))
+        for k, vals in sorted(REL_LOGS.items()):
+            if rng.random() < p:
+                ini[k] = rng.choice(vals)
+        q['ini'] = ini
+        out.append(q)
+    return out
+
+
+def unparsable_real(rng, progs):
+    """a version of the file that cannot be parsed: one option of one program holds a value that is rejected"""
+    r = rng.random()
+    if r < 0.15:
+        return {'unparsable': True, 'programs': [dict(q) for q in progs], 'raw': rng.choice(BAD_RAW)}
+    progs = [dict(q) for q in progs]
+    q = rng.choice(progs)
+    ini = dict(q.get('ini', {}))
+    if r < 0.7:
+        bad = rng.choice(BAD_FORMATS)
+        k = rng.choice(['command', 'command', 'environment', 'directory', 'stdout_logfile', 'process_name', 'startsecs'])
+        ini[k] = bad if k == 'command' else ('STAMP="%s"' % bad.split(' ', 1)[1] if k == 'environment' else bad.split(' ', 1)[1])
+    else:
+        k, v = rng.choice(BAD_OPTIONS)
+        ini[k] = v
+    q['ini'] = ini
+    ver = {'unparsable': True, 'programs': progs}
+    if rng.random() < 0.15:
+        ver['supervisord'] = {rng.choice(['identifier', 'environment', 'minfds']): rng.choice(['sv%d', 'A="%c"', '%(here)d'])}
+        q['ini'] = dict(q.get('ini', {})); q['ini'].pop(k, None)
+    return ver
+
+
+def real_worlds():
+    """[(label, file versions, steps)]: small structured worlds read from real files"""
+    W = []
+    other = P('other', 'other', startsecs=0)
+    web = P('web', 'web', startsecs=0, ini={'stdout_logfile': 'web.log', 'stderr_logfile': 'web.err'})
+    job = batch('job', 'job', ini={'stderr_logfile': 'logs/job.err', 'directory': 'rel'})
+    absl = P('abs', 'abs', startsecs=0, ini={'stdout_logfile': '/tmp/verif_c15_abs.log', 'stderr_logfile': 'AUTO'})
+    v0 = [web, job, absl, other]
+    # seeded C15-8: relative child log file names, an unchanged file, the daemon has changed its directory
+    W.append(('unchanged-relative-logfiles', [v0], [['reread'], ['update', ''], ['sleep', 2], ['reread'], ['update', 'all']]))
+    W.append(('unchanged-relative-logfiles-named', [v0], [['update', 'web'], ['reread']]))
+    # a relative name changes (that IS a change), then nothing more
+    v1 = [dict(web, ini={'stdout_logfile': 'logs/web.log', 'stderr_logfile': 'web.err'}), job, absl, other]
+    W.append(('relative-logfile-renamed', [v0, v1], [['write', 1], ['reread'], ['update', ''], ['sleep', 1], ['reread'], ['update', '']]))
+    # seeded C15-7: an unescaped strftime percent; `%(program_name)d`; then the file is repaired
+    for i, bad in enumerate(['/sim/stamp +%d', '/sim/stamp %(program_name)d', '/sim/stamp +%Y', '/sim/stamp -t %c']):
+        stamp = P('stamp', 'stamp', autostart=False)
+        b0 = [stamp, other]
+        W.append(('unparsable-format-%d' % i, [b0, {'unparsable': True, 'programs': [dict(stamp, ini={'command': bad}), other]}, [dict(stamp, startsecs=2), other]],
+                  [['write', 1], ['reread'], ['update', ''], ['write', 2], ['update', '']]))
+    return W
+
+
+def real_exhaustive(ctx):
+    for label, files, steps in real_worlds():
+        for chdir in (True, False):
+            for start in ((3, 4) if ctx.tier == 'quick' else (3, 4, 5)):
+                yield make_input(files, [], steps, start, {'default': [0, 1]}, tail=4, label='real/%s/%s/start%d' % (label, 'chdir' if chdir else 'same-directory', start),
+                                 real={'chdir': chdir, 'childlogdir': 'absolute'})
+
+
+def gen_real(rng):
+    """random worlds read from real files: relative paths in the path-valued options, a reread / update in another
+    directory than the first parse, unchanged / changed / unparsable versions"""
+    inp = gen_random(rng)
+    files = [f for f in inp['files'] if isinstance(f, list)]
+    files = [relativise(rng, f, p=0.6) for f in files[:1]] + files[1:]
+    by_name = {p['name']: p for p in files[0]}
+    for f in files[1:]:                      # a program keeps its raw options in the later versions
+        for q in f:
+            if q['name'] in by_name and 'ini' in by_name[q['name']]:
+                q['ini'] = dict(by_name[q['name']]['ini'])
+    story = rng.choice(['unchanged', 'unchanged', 'changed', 'unparsable', 'unparsable', 'unparsable-then-changed'])
+    if story == 'unchanged':
+        steps = rng.choice([[['reread'], ['update', '']], [['update', '']], [['update', ''], ['sleep', 2], ['update', 'all'], ['reread']],
+                            [['write', 1], ['update', ''], ['sleep', 1], ['reread'], ['update', '']]])
+    elif story == 'changed':
+        steps = [['write', 1], ['reread'], ['update', ''], ['reread']]
+    elif story == 'unparsable':
+        files = files[:2] + [unparsable_real(rng, files[rng.randrange(2)])]
+        steps = [['write', 2], rng.choice([['reread'], ['update', '']]), rng.choice([['reread'], ['update', 'all']]), ['write', 0], ['update', '']]
+    else:
+        files = files[:2] + [unparsable_real(rng, files[0])]
+        steps = [['write', 2], ['update', ''], ['write', 1], ['reread'], ['update', '']]
+    return make_input(files, inp['script'], steps, inp['start'], inp['lat'], fill_dt=inp['fill_dt'], tail=inp['tail'], label='real/random/' + story,
+                      real={'chdir': rng.random() < 0.8, 'childlogdir': rng.choice(['absolute', 'absolute', 'relative'])})
+
+
 # ------------------------------------------------------------------------------------------------ population
 
 def run_one(ctx, inp, report):
@@ -783,8 +1025,16 @@ def run_population(ctx):
     report = Once(ctx)
     for inp in REGRESSION:
         run_one(ctx, inp, report)
+    for inp in real_exhaustive(ctx):
+        run_one(ctx, inp, report)
+        if ctx.searching and ctx.violations:
+            return
     for inp in exhaustive(ctx):
         run_one(ctx, inp, report)
+        if ctx.searching and ctx.violations:
+            return
+    for _ in range(ctx.n(40, 400)):
+        run_one(ctx, gen_real(ctx.rng), report)
         if ctx.searching and ctx.violations:
             return
     for _ in range(ctx.n(150, 1500)):
